@@ -195,6 +195,10 @@ def check(ctx):
     from .C09 import check_merge_loops, check_per_file_state
     check_merge_loops(ctx)
     check_per_file_state(ctx)
+    # a centroid collects a vote in every iteration: the counter must be
+    # able to hold the iteration count (shared with C02)
+    from .C02 import check_counter_capacity
+    check_counter_capacity(ctx)
 
 
 # ----------------------------------------------------------------------
